@@ -15,16 +15,19 @@ import numpy as np
 
 from mc import knn as K
 from mc.oracles import axioms
-from mc.runner import Result, horizon, Horizon
+from mc.runner import Result, horizon, Horizon, scratch_dir
 
 ID = "C07"
 TITLE = "no call modifies caller data; results depend only on argument values"
-RULE = ("(1) per metric: ALL call histories of length <= 3 over all ordered pairs (aliased pairs "
-        "x is y included) of a pool of domain vectors containing exact zeros - after every call "
-        "the pool must be bit-identical and the value equal to that of the same call on pristine "
-        "copies; (2) per model kind x metric: breadth-first search over histories of "
+RULE = ("(1) per metric: ALL histories of length <= 3 over {evaluate on an ordered pair of pool "
+        "vectors (aliased pairs x is y included), the caller overwrites one of its own vectors in "
+        "place with another pool value} for a pool of domain vectors containing exact zeros - after "
+        "every call the pool must be bit-identical to what the caller wrote and the value equal to "
+        "that of the same call on fresh arrays holding the same values; (2) per model kind x metric: breadth-first search over histories of "
         "{fit, predict(queries), predict(training matrix), get_distances, pre_compute_distance, "
-        "metric on rows of the caller's matrix} with state = (pool bits, hidden-state digest, "
+        "metric on rows of the caller's matrix, fit of an unrelated model on other data of the same "
+        "size, ... of another size} (every history replayed from the pristine state: module-level "
+        "mutable objects of opfython.* and the NumPy RNG are restored first) with state = (pool bits, hidden-state digest, "
         "model digest) to fixpoint (depth bound 4): pool unchanged and each return value equal "
         "to its pristine reference on every transition; (3) two fresh models fitted on equal "
         "data, with arbitrary calls in between, have identical forests and predictions. "
@@ -60,6 +63,8 @@ def plan(tier, seed):
 def warm():
     from mc.warm import warm_metrics
     warm_metrics()
+    import opfython.models  # noqa
+    snapshot_module_state()
 
 
 # --------------------------------------------------------------------------
@@ -121,6 +126,72 @@ def _dig(h, label, val):
         h.update(repr(val).encode())
 
 
+def _mutable_slots():
+    """(owner dict, key, value) of every module-level / class-level mutable container or array
+    of opfython.* (registries whose values are all callables are treated as constants)."""
+    out = []
+    for name in sorted(sys.modules):
+        if not (name == "opfython" or name.startswith("opfython.")):
+            continue
+        mod = sys.modules[name]
+        owners = [vars(mod)]
+        for attr, val in list(vars(mod).items()):
+            if isinstance(val, type) and getattr(val, "__module__", "").startswith("opfython"):
+                owners.append(None)  # class dicts are mappingproxies: handled through setattr
+                for ca, cv in list(vars(val).items()):
+                    if not ca.startswith("__") and isinstance(cv, (dict, list, set, bytearray, np.ndarray)):
+                        out.append((val, ca, cv))
+        for attr, val in list(vars(mod).items()):
+            if attr.startswith("__"):
+                continue
+            if isinstance(val, dict) and val and all(callable(v) for v in val.values()):
+                continue
+            if isinstance(val, (dict, list, set, bytearray, np.ndarray)):
+                out.append((mod, attr, val))
+    return out
+
+
+_PRISTINE = None
+
+
+def snapshot_module_state():
+    global _PRISTINE
+    import copy
+    if _PRISTINE is None:
+        _PRISTINE = []
+        for owner, key, val in _mutable_slots():
+            try:
+                saved = copy.deepcopy(val)
+            except Exception:
+                saved = copy.copy(val)
+            _PRISTINE.append((owner, key, saved))
+        _PRISTINE.append(("rng", None, np.random.get_state()))
+
+
+def restore_module_state():
+    """Put every module-level mutable object of opfython.* (and the NumPy global RNG) back
+    to its state right after import, so that each replayed history really starts from the
+    pristine state."""
+    import copy
+    snapshot_module_state()
+    for owner, key, saved in _PRISTINE:
+        if owner == "rng":
+            np.random.set_state(saved)
+            continue
+        cur = getattr(owner, key, None)
+        fresh = copy.deepcopy(saved)
+        if isinstance(cur, dict) and isinstance(fresh, dict):
+            cur.clear()
+            cur.update(fresh)
+        elif isinstance(cur, list) and isinstance(fresh, list):
+            cur[:] = fresh
+        elif isinstance(cur, set) and isinstance(fresh, set):
+            cur.clear()
+            cur.update(fresh)
+        else:
+            setattr(owner, key, fresh)
+
+
 def metric_pool(name, seed, tier):
     """Domain vectors containing exact zeros where the domain has them."""
     if name in axioms.R_CLASS or name == "hassanat":
@@ -143,15 +214,27 @@ def viol(check, prog, prob, sym):
 # (1) metric call histories
 # --------------------------------------------------------------------------
 def run_history(name, vs, hist):
-    """hist: list of (i, j).  Returns problem text or None."""
+    """hist: list of ("c", i, j) = evaluate the metric on pool[i], pool[j] (the very
+    objects, aliased when i == j), or ("w", i, k) = the CALLER overwrites its own
+    vector pool[i] in place with the values of vs[k] (allowed: it is the caller's
+    array).  Legacy form (i, j) = call.  Returns (problem, symptom) or (None, None)."""
     import opfython.math.distance as D
     fn = D.DISTANCES[name]
     pool = [np.array(v, dtype=float) for v in vs]
-    orig = pool_bits(pool)
-    for step, (i, j) in enumerate(hist):
-        # pristine reference of this call
-        rx = np.array(vs[i], dtype=float)
-        ry = rx if i == j else np.array(vs[j], dtype=float)
+    cur = list(range(len(vs)))
+    for step, op in enumerate(hist):
+        if len(op) == 2:
+            op = ("c",) + tuple(op)
+        if op[0] == "w":
+            _, i, k = op
+            pool[i][:] = np.array(vs[k], dtype=float)
+            cur[i] = k
+            continue
+        _, i, j = op
+        expected = tuple(bits(np.array(vs[c], dtype=float)) for c in cur)
+        # pristine reference of this call: fresh arrays holding the current values
+        rx = np.array(vs[cur[i]], dtype=float)
+        ry = rx if i == j else np.array(vs[cur[j]], dtype=float)
         try:
             ref = val_repr(fn(rx, ry))
         except Exception as ex:
@@ -161,45 +244,57 @@ def run_history(name, vs, hist):
         except Exception as ex:
             got = "raised " + type(ex).__name__
         now = pool_bits(pool)
-        if now != orig:
-            ch = [k for k in range(len(pool)) if now[k] != orig[k]]
+        if now != expected:
+            ch = [k for k in range(len(pool)) if now[k] != expected[k]]
             return ("after call %d = %s(pool[%d], pool[%d]) the caller's vector(s) %s changed: "
-                    "%s -> %s" % (step, name, i, j, ch, [list(vs[k]) for k in ch],
+                    "%s -> %s" % (step, name, i, j, ch, [list(vs[cur[k]]) for k in ch],
                                   [pool[k].tolist() for k in ch]), "caller vector modified")
         if got != ref:
-            return ("call %d = %s(pool[%d], pool[%d]) returned a different value after the history "
-                    "%s than on pristine copies of the same vectors" % (step, name, i, j, hist[:step]),
+            return ("call %d = %s(pool[%d], pool[%d]) on values %s, %s returned a different value after "
+                    "the history %s than on fresh arrays holding the same values"
+                    % (step, name, i, j, list(vs[cur[i]]), list(vs[cur[j]]), list(hist[:step])),
                     "value depends on history")
     return None, None
+
+
+def hist_ops(nv):
+    calls = [("c", i, j) for i in range(nv) for j in range(nv)]
+    writes = [("w", i, k) for i in range(nv) for k in range(nv)]
+    return calls, writes
 
 
 def shard_hist(shard, seed, res):
     _, name, tier = shard
     vs = metric_pool(name, seed, tier)
-    ops = list(itertools.product(range(len(vs)), repeat=2))
+    calls, writes = hist_ops(len(vs))
+    allops = calls + writes
+    stop = False
     for L in (1, 2, 3):
-        for hist in itertools.product(ops, repeat=L):
-            r = run_history(name, vs, list(hist))
-            res.evaluations += 1
-            res.transitions += L
-            res.traces += 1
-            if L >= 2:
-                res.nontrivial += 1
-            if r[0]:
-                res.violations.append(viol("metric-history",
-                                           {"part": "hist", "metric": name, "pool": [list(v) for v in vs],
-                                            "history": [list(h) for h in hist]}, r[0],
-                                           "DISTANCES[decorated]: " + r[1] if name in axioms.DECORATED
-                                           else "DISTANCES[%s]: %s" % (name, r[1])))
-                if res.full:
-                    return
-                break  # longer histories of this length repeat the symptom
-        else:
-            continue
-        break
+        for prefix in itertools.product(allops, repeat=L - 1):
+            for last in calls:            # a history is judged at its calls; it ends with one
+                hist = list(prefix) + [last]
+                r = run_history(name, vs, hist)
+                res.evaluations += 1
+                res.transitions += L
+                res.traces += 1
+                if L >= 2:
+                    res.nontrivial += 1
+                if r[0]:
+                    res.violations.append(viol("metric-history",
+                                               {"part": "hist", "metric": name, "pool": [list(v) for v in vs],
+                                                "history": [list(h) for h in hist]}, r[0],
+                                               "DISTANCES[decorated]: " + r[1] if name in axioms.DECORATED
+                                               else "DISTANCES[%s]: %s" % (name, r[1])))
+                    stop = True
+                    break
+            if stop:
+                break
+        if stop:
+            break
     res.states += 1
     res.outcome((name, "hist"))
-    res.sample({"metric": name, "pool": [list(v) for v in vs], "history": [[0, 1], [1, 1], [0, 1]]}, 1)
+    res.sample({"metric": name, "pool": [list(v) for v in vs],
+                "history": [["c", 0, 1], ["w", 0, 1], ["c", 0, 1]]}, 1)
 
 
 # --------------------------------------------------------------------------
@@ -223,6 +318,15 @@ def make_world(seed):
 
 
 WORLD_KEYS = ["X", "Y", "Xu", "Xv", "Yv", "Xq"]
+
+
+def other_world(w, small=False):
+    X = w["X"][::-1].copy() * 1.5 + 0.25
+    Y = w["Y"][::-1].copy()
+    if small:
+        X, Y = X[1:], Y[1:]
+    return {"X": X, "Y": Y, "Xu": w["Xu"] * 0.5 + 1.0, "Xv": w["Xv"].copy(), "Yv": w["Yv"].copy(),
+            "Xq": w["Xq"].copy()}
 
 
 def new_model(kind, metric):
@@ -274,17 +378,24 @@ def apply_op(op, kind, metric, w, m, tmpdir):
         return D.DISTANCES[metric](w["X"][0], w["X"][2])
     if op == "metric_alias":
         return D.DISTANCES[metric](w["Xq"][0], w["Xq"][0])
+    if op in ("fit_other", "fit_small"):
+        # an unrelated model object of the same kind is fitted on OTHER data (same size /
+        # one row less); nothing of it is observed - it only is part of the history
+        w2 = other_world(w, small=(op == "fit_small"))
+        apply_op("fit", kind, metric, w2, new_model(kind, metric), tmpdir)
+        return None
     raise ValueError(op)
 
 
 OPS = ["fit", "predict_q", "predict_train", "get_distances", "pre_compute", "metric_rows",
-       "metric_alias"]
+       "metric_alias", "fit_other", "fit_small"]
 NEEDS_FIT = {"predict_q", "predict_train", "get_distances"}
 
 
 def run_ops(kind, metric, seed, hist, tmpdir, check=True, refs=None):
     """Replays a history on a pristine world.  Returns (problem, symptom,
     state_key, value of the last op)."""
+    restore_module_state()
     w = make_world(seed)
     orig = {k: bits(w[k]) for k in WORLD_KEYS}
     m = new_model(kind, metric)
@@ -316,7 +427,7 @@ def run_ops(kind, metric, seed, hist, tmpdir, check=True, refs=None):
 
 def shard_bfs(shard, seed, res):
     _, kind, metric, tier = shard
-    tmpdir = tempfile.mkdtemp(prefix="c07-", dir="/var/tmp")
+    tmpdir = tempfile.mkdtemp(prefix="c07-", dir=scratch_dir())
     try:
         # pristine references: value of each op after the minimal prerequisite
         refs = {}
@@ -377,6 +488,7 @@ def observe_full(kind, m, w):
 
 
 def run_twice(kind, metric, seed, between, tmpdir):
+    restore_module_state()
     w1 = make_world(seed)
     m1 = new_model(kind, metric)
     apply_op("fit", kind, metric, w1, m1, tmpdir)
@@ -402,10 +514,10 @@ def run_twice(kind, metric, seed, between, tmpdir):
 
 def shard_twice(shard, seed, res):
     _, kind, metric, tier = shard
-    tmpdir = tempfile.mkdtemp(prefix="c07-", dir="/var/tmp")
+    tmpdir = tempfile.mkdtemp(prefix="c07-", dir=scratch_dir())
     try:
         betweens = [[]] + [list(p) for L in (1, 2) for p in itertools.product(
-            ["fit", "predict_train", "metric_rows", "pre_compute"], repeat=L)
+            ["fit", "fit_small", "fit_other", "predict_train", "metric_rows", "pre_compute"], repeat=L)
             if not (p[0] == "predict_train")]
         for b in betweens:
             try:
@@ -446,7 +558,7 @@ def run(shard, seed):
 def replay(case):
     p = case["program"]
     seed = int(p.get("seed", 0))
-    tmpdir = tempfile.mkdtemp(prefix="c07-", dir="/var/tmp")
+    tmpdir = tempfile.mkdtemp(prefix="c07-", dir=scratch_dir())
     try:
         if p["part"] == "hist":
             r = run_history(p["metric"], [tuple(v) for v in p["pool"]],
